@@ -1,6 +1,7 @@
 package main
 
 import (
+	"io"
 	"bytes"
 	"encoding/json"
 	"fmt"
@@ -893,6 +894,7 @@ func renderUnescaped(snap *stack.Snapshot) ([]byte, error) {
 // ---------------------------------------------------------------------------
 
 func runC17(prop string, res *Result, pool *DrvPool, r *Rng) {
+	defer runC17SlowWriters(res, r.Fork())
 	res.Rule = "constructed snapshots (1-5 goroutines, 0-4 frames, creators, race fields, sleeps, elided stacks, nested aggregate arguments, processed arguments, GOROOT/GOPATH/go.mod fields) in which every string field carries markup/attribute/URL payloads with unique markers (30 payload kinds), module paths (github.com, golang.org/x, vendor, gopkg.in, @version incl. pseudo-versions) with payloads per component, all 5 locations; rendered by Snapshot.ToHTML and Aggregated.ToHTML at the 4 levels; plus per-call builder cases and per-string escaper cases; non-trivial = the case carries at least one payload; distinct by hash of the input"
 	ver := runtime.Version()
 	h := &hostile{r: r, kinds: map[string]int{}}
@@ -1308,4 +1310,60 @@ func diffAt(got, want string) string {
 		w = w[:80]
 	}
 	return fmt.Sprintf("at byte %d: model %q, implementation %q", i, g, w)
+}
+
+
+// runC17SlowWriters: a page rendered into a writer that takes its time (a slow HTTP client, a pipe)
+// while another page is rendered in between, on one processor.  Each document must be the document
+// of its own snapshot, byte for byte (creation time aside), exactly as when rendered alone.
+func runC17SlowWriters(res *Result, r *Rng) {
+	mk := func(tag string, n int) *stack.Snapshot {
+		var sb strings.Builder
+		for g := 1; g <= n; g++ {
+			fmt.Fprintf(&sb, "goroutine %d [chan receive]:\nmain.%sLeaf%d(0x%x)\n\t/src/%s/leaf.go:%d +0x1\nmain.%sMid%d()\n\t/src/%s/mid.go:%d +0x2\nmain.%sRoot()\n\t/src/%s/root.go:7 +0x3\n\n", g, tag, g, g, tag, 10+g, tag, g, tag, 20+g, tag, tag)
+		}
+		s, _, _ := stack.ScanSnapshot(strings.NewReader(sb.String()), io.Discard, &stack.Opts{})
+		return s
+	}
+	mask := func(b []byte) string { return reCreatedOn.ReplaceAllString(string(b), "") }
+	old := runtime.GOMAXPROCS(1)
+	defer runtime.GOMAXPROCS(old)
+	for round := 0; round < countN(res.Tier, 4, 60); round++ {
+		a, b := mk(fmt.Sprintf("alpha%d", round), 20+r.Intn(20)), mk(fmt.Sprintf("beta%d", round), 20+r.Intn(20))
+		if a == nil || b == nil {
+			return
+		}
+		var refA, refB bytes.Buffer
+		a.ToHTML(&refA, "")
+		b.ToHTML(&refB, "")
+		pr, pw := io.Pipe()
+		errA := make(chan error, 1)
+		go func() { errA <- a.ToHTML(pw, ""); pw.Close() }()
+		var gotA, gotB bytes.Buffer
+		buf := make([]byte, 512)
+		first := true
+		for {
+			n, err := pr.Read(buf)
+			gotA.Write(buf[:n])
+			if first && n > 0 {
+				first = false
+				// while document A is only partly consumed, document B is rendered
+				b.ToHTML(&gotB, "")
+			}
+			runtime.Gosched()
+			if err != nil {
+				break
+			}
+		}
+		<-errA
+		res.Count("slow-writer-rounds")
+		if mask(gotA.Bytes()) != mask(refA.Bytes()) {
+			res.Violation(Finding{Stream: "slow writer", What: "a page written to a slow consumer while another page was rendered in between is not the page of its snapshot: " + diffAt(mask(gotA.Bytes()), mask(refA.Bytes())), Op: map[string]interface{}{"goroutines_a": len(a.Goroutines), "goroutines_b": len(b.Goroutines)}})
+			return
+		}
+		if mask(gotB.Bytes()) != mask(refB.Bytes()) {
+			res.Violation(Finding{Stream: "slow writer", What: "a page rendered while another one was still being written out differs from the same page rendered alone: " + diffAt(mask(gotB.Bytes()), mask(refB.Bytes())), Op: map[string]interface{}{"goroutines_a": len(a.Goroutines), "goroutines_b": len(b.Goroutines)}})
+			return
+		}
+	}
 }
